@@ -137,13 +137,16 @@ func (p *parser) parseB(line string) error {
 	}
 
 	var latDeg, latMilliMin int
-	if latDeg, err = parseDecInRange(line, 7, 9, 0, 90); err != nil {
+	if latDeg, err = parseDecInRange(line, 7, 9, 0, 90+1); err != nil {
 		return err
 	}
 	// special case: latMilliMin should be in the range [0, 60000) but a number of flight recorders generate latMilliMins of 60000
 	// FIXME check what happens in negative (S, W) hemispheres
 	if latMilliMin, err = parseDecInRange(line, 9, 14, 0, 60000+1); err != nil {
 		return err
+	}
+	if latDeg == 90 && latMilliMin != 0 {
+		return fmt.Errorf("value out of range: %d, want 0", latMilliMin)
 	}
 	lat := float64(60000*latDeg+latMilliMin) / 60000.
 	if p.ladStart != 0 {
@@ -163,11 +166,14 @@ func (p *parser) parseB(line string) error {
 	}
 
 	var lngDeg, lngMilliMin int
-	if lngDeg, err = parseDecInRange(line, 15, 18, 0, 180); err != nil {
+	if lngDeg, err = parseDecInRange(line, 15, 18, 0, 180+1); err != nil {
 		return err
 	}
 	if lngMilliMin, err = parseDecInRange(line, 18, 23, 0, 60000+1); err != nil {
 		return err
+	}
+	if lngDeg == 180 && lngMilliMin != 0 {
+		return fmt.Errorf("value out of range: %d, want 0", lngMilliMin)
 	}
 	lng := float64(60000*lngDeg+lngMilliMin) / 60000.
 	if p.lodStart != 0 {
